@@ -22,7 +22,7 @@
     blk  ::= (blk item…)    item ::= (let x e) | (do e) | (last e)
     e    ::= (int n) | (bool 0|1) | (unit) | (var x) | (host f e…) | (call f e…)
            | (bin op e e) | (and e e) | (or e e) | (not e) | (neg e)
-           | (ite e blk blk) | (if1 e blk) | (match e arm…) | (while e blk) | (for x e blk)
+           | (ite e blk blk) | (if1 e blk) | (match opt|enm e arm…) | (while e blk) | (for x e blk)
            | (block blk) | (set x e) | (cset op x e) | (ret e) | (accept e) | (reject e)
            | (try e) | (some e) | (none) | (ctor k e…) | (record e…) | (field e i)
            | (list e…) | (fstr part…)
@@ -122,7 +122,9 @@ partial def toExpr : Sexp → Option Expr
   | .list [.atom "neg", e] => do pure (.neg (← toExpr e))
   | .list [.atom "ite", c, t, e] => do pure (.ite (← toExpr c) (← toBlock t) (← toBlock e))
   | .list [.atom "if1", c, t] => do pure (.if1 (← toExpr c) (← toBlock t))
-  | .list (.atom "match" :: s :: arms) => do pure (.mtch (← toExpr s) (← toArms arms))
+  | .list (.atom "match" :: .atom ty :: s :: arms) => do
+    let isOpt ← if ty = "opt" then some true else if ty = "enm" then some false else none
+    pure (.mtch (← toExpr s) isOpt (← toArms arms))
   | .list [.atom "while", c, b] => do pure (.while (← toExpr c) (← toBlock b))
   | .list [.atom "for", .atom x, l, b] => do pure (.for (← x.toNat?) (← toExpr l) (← toBlock b))
   | .list [.atom "block", b] => do pure (.block (← toBlock b))
